@@ -127,18 +127,18 @@ def chrom_column(names, values, how):
     return values, pd.CategoricalDtype(cats)
 
 
-def rec_df(names, anchor, xname, chunk, decode=True, with_x=True, with_count=None, chrom_repr="object", pos_dtype="int64"):
+def rec_df(names, anchor, xname, chunk, decode=True, with_x=True, with_count=None, chrom_repr="object", pos_dtype="int64", suf=("1", "2")):
     nm = (lambda c: names[c] if c >= 0 else UNK) if decode else (lambda c: c)
     pdt = POS_DTYPES[pos_dtype or "int64"]
     c1 = [nm(r[0]) for r in chunk]
     c2 = [nm(r[3]) for r in chunk]
-    d = {"chrom1": c1, anchor + "1": np.array([r[1] for r in chunk], dtype=pdt)}
+    d = {"chrom1": c1, anchor + suf[0]: np.array([r[1] for r in chunk], dtype=pdt)}
     if with_x:
-        d[xname + "1"] = np.array([r[2] for r in chunk], dtype=np.int64)
+        d[xname + suf[0]] = np.array([r[2] for r in chunk], dtype=np.int64)
     d["chrom2"] = c2
-    d[anchor + "2"] = np.array([r[4] for r in chunk], dtype=pdt)
+    d[anchor + suf[1]] = np.array([r[4] for r in chunk], dtype=pdt)
     if with_x:
-        d[xname + "2"] = np.array([r[5] for r in chunk], dtype=np.int64)
+        d[xname + suf[1]] = np.array([r[5] for r in chunk], dtype=np.int64)
     df = pd.DataFrame(d)
     if not decode:
         df["chrom1"] = df["chrom1"].astype(np.int64)
@@ -152,14 +152,14 @@ def rec_df(names, anchor, xname, chunk, decode=True, with_x=True, with_count=Non
     return df
 
 
-def rows_out(names, anchor, xname, df, decode=True, with_x=True):
+def rows_out(names, anchor, xname, df, decode=True, with_x=True, suf=("1", "2")):
     idx = {n: i for i, n in enumerate(names)}
     cc = (lambda v: idx[str(v)]) if decode else int
+    cols = ["bin1_id", "bin2_id", "chrom1", anchor + suf[0], "chrom2", anchor + suf[1]] + ([xname + suf[0], xname + suf[1]] if with_x else [])
     rows = []
-    for t in df.itertuples(index=False):
-        g = t._asdict()
-        rows.append([int(g["bin1_id"]), int(g["bin2_id"]), cc(g["chrom1"]), int(g[anchor + "1"]), int(g[xname + "1"]) if with_x else 0,
-                     cc(g["chrom2"]), int(g[anchor + "2"]), int(g[xname + "2"]) if with_x else 0])
+    for vals in zip(*[df[c_] for c_ in cols]):
+        rows.append([int(vals[0]), int(vals[1]), cc(vals[2]), int(vals[3]), int(vals[6]) if with_x else 0,
+                     cc(vals[4]), int(vals[5]), int(vals[7]) if with_x else 0])
     return rows
 
 
@@ -174,15 +174,25 @@ def classify(e):
 
 
 def run_sanitize(bins, names, case):
-    """-> list per chunk: 'BadInputError' | {'rows': [...], 'agg': [...]}"""
+    """-> list per chunk: 'BadInputError' | {'rows': [...], 'agg': [...], 'agg_unsorted': [...], 'agg_x': [...]}"""
     from cooler.create import aggregate_records, sanitize_records
     o = case["opts"]
     schema = o["schema"]
-    anchor, xname = ("pos", "x") if schema == "pairs" else ("start", "end")
+    layout = o.get("layout", "std")
+    suf = ("1", "2")
     kw = dict(is_one_based=bool(o["one_based"]), tril_action=o["tril"], sort=bool(o["sort"]), validate=bool(o["validate"]),
               decode_chroms=bool(o["decode"]))
-    if schema == "pairs" and o["with_x"]:
-        kw["sided_fields"] = ("chrom", "pos", "x")
+    if layout == "std":
+        anchor, xname = ("pos", "x") if schema == "pairs" else ("start", "end")
+        if schema == "pairs" and o["with_x"]:
+            kw["sided_fields"] = ("chrom", "pos", "x")
+    elif layout == "coord":      # no preset: every option spelled out, custom anchor column name
+        schema, anchor, xname = None, "coord", "x"
+        kw.update(chrom_field="chrom", anchor_field="coord", suffixes=("1", "2"),
+                  sided_fields=("chrom", "coord", "x") if o["with_x"] else ("chrom", "coord"))
+    else:                        # "suffix_ab": custom suffixes on the anchor columns (no reflection: the chromosome columns are fixed names)
+        schema, anchor, xname, suf = None, "p", "x", ("_a", "_b")
+        kw.update(chrom_field="chrom", anchor_field="p", suffixes=suf, sided_fields=())
     res = []
     try:
         f = sanitize_records(bins, schema=schema, **kw)
@@ -190,15 +200,33 @@ def run_sanitize(bins, names, case):
         return ["ctor:" + classify(e)]
     for chunk in case["chunks"]:
         df = rec_df(names, anchor, xname, chunk, decode=o["decode"], with_x=o["with_x"],
-                    chrom_repr=o.get("chrom_repr"), pos_dtype=o.get("pos_dtype"))
+                    chrom_repr=o.get("chrom_repr"), pos_dtype=o.get("pos_dtype"), suf=suf)
         try:
             out = f(df)
-            rows = rows_out(names, anchor, xname, out, decode=o["decode"], with_x=o["with_x"])
-            agg = aggregate_records(sort=True)(out)
-            res.append({"rows": rows, "agg": [[int(a), int(b), int(c)] for a, b, c in zip(agg["bin1_id"], agg["bin2_id"], agg["count"])]})
+            rows = rows_out(names, anchor, xname, out, decode=o["decode"], with_x=o["with_x"], suf=suf)
+            r = {"rows": rows, "agg": [], "agg_unsorted": [], "agg_x": []}
+            if len(out):
+                trip = lambda a: [[int(x), int(y), int(z)] for x, y, z in zip(a["bin1_id"], a["bin2_id"], a["count"])]  # noqa: E731
+                r["agg"] = trip(aggregate_records(sort=True)(out))
+                r["agg_unsorted"] = sorted(trip(aggregate_records(sort=False)(out)))
+                if o["with_x"]:
+                    xc = xname + suf[0]
+                    a = aggregate_records(sort=True, count=True, agg={xc: "sum"})(out)
+                    r["agg_x"] = [[int(b1), int(b2), int(c), int(sx)] for b1, b2, c, sx in zip(a["bin1_id"], a["bin2_id"], a["count"], a[xc])]
+            res.append(r)
         except Exception as e:  # noqa: BLE001
             res.append(classify(e))
     return res
+
+
+def run_ctor(bins, case):
+    """constructor-level refusals"""
+    from cooler.create import sanitize_records
+    try:
+        sanitize_records(bins, **case["kwargs"])
+        return "ok"
+    except Exception as e:  # noqa: BLE001
+        return classify(e)
 
 
 def run_pixels(bins, case):
@@ -208,18 +236,21 @@ def run_pixels(bins, case):
     kw = dict(is_one_based=bool(o["one_based"]), tril_action=o["tril"], sort=bool(o["sort"]))
     if o["with_x"]:
         kw["sided_fields"] = ("x",)
+    f1, f2 = o.get("fields") or ("bin1_id", "bin2_id")
+    if o.get("fields"):
+        kw.update(bin1_field=f1, bin2_field=f2)
     f = sanitize_pixels(bins, **kw)
     bdt = POS_DTYPES[o.get("pos_dtype") or "int64"]
     vdt = np.float64 if o.get("val_dtype") == "float" else np.int64
     res = []
     for chunk in case["chunks"]:
-        d = {"bin1_id": np.array([r[0] for r in chunk], dtype=bdt), "bin2_id": np.array([r[1] for r in chunk], dtype=bdt)}
+        d = {f1: np.array([r[0] for r in chunk], dtype=bdt), f2: np.array([r[1] for r in chunk], dtype=bdt)}
         if o["with_x"]:
             d["x1"] = np.array([r[2] for r in chunk], dtype=np.int64)
             d["x2"] = np.array([r[3] for r in chunk], dtype=np.int64)
         d["count"] = np.array([r[4] for r in chunk], dtype=vdt)
         try:
-            out = f(pd.DataFrame(d))
+            out = f(pd.DataFrame(d)).rename(columns={f1: "bin1_id", f2: "bin2_id"})
             rows = [[int(t.bin1_id), int(t.bin2_id), int(t.x1) if o["with_x"] else 0, int(t.x2) if o["with_x"] else 0, int(t.count)]
                     for t in out.itertuples(index=False)]
             if any(float(t.count) != int(t.count) for t in out.itertuples(index=False)):
@@ -251,6 +282,10 @@ def read_pixels(path):
     import cooler
     clr = cooler.Cooler(path)
     px = clr.pixels()[:]
+    if any(float(c) != int(c) for c in px["count"]):
+        return "non-integral count"
+    if "val" in px.columns:
+        return [[int(a), int(b), int(c), int(v)] for a, b, c, v in zip(px["bin1_id"], px["bin2_id"], px["count"], px["val"])]
     return [[int(a), int(b), int(c)] for a, b, c in zip(px["bin1_id"], px["bin2_id"], px["count"])]
 
 
@@ -275,15 +310,25 @@ def run_cli(tmpdir, k, blocks, names, case):
                     f.write("## pairs format v1.0\n#columns: readID chr1 pos1 chr2 pos2\n")
                 for i, r in enumerate(recs):
                     if o.get("d8"):    # regression D8 (repaired): field numbers in non-ascending order
-                        f.write(f"{r[4]}\t{nm(r[3])}\tr{i}\t{r[1]}\t{nm(r[0])}\n")
+                        f.write(f"{r[4]}\t{nm(r[3])}\tr{i}\t{r[1]}\t{nm(r[0])}\t{i % 5 + 1}\n")
                     else:
-                        f.write(f"r{i}\t{nm(r[0])}\t{r[1]}\t{nm(r[3])}\t{r[4]}\n")
+                        f.write(f"r{i}\t{nm(r[0])}\t{r[1]}\t{nm(r[3])}\t{r[4]}\t{i % 5 + 1}\n")
             fields = ["-c1", "5", "-p1", "4", "-c2", "2", "-p2", "1"] if o.get("d8") else ["-c1", "2", "-p1", "3", "-c2", "4", "-p2", "5"]
-            args = ["cload", "pairs"] + fields + ["--chunksize", str(csz)]
+            args = ["cload", "pairs"] + fields + ["--chunksize", str(csz)] + (["--field", "val=6:dtype=int"] if o.get("field") else [])
             if not o["one_based"]:
                 args.append("--zero-based")
+        elif case["fn"] == "cload_tabix":
+            import pysam
+            with open(inp, "w") as f:
+                for i, r in enumerate(recs):
+                    f.write(f"{nm(r[0])}\t{r[1]}\t{nm(r[3])}\t{r[4]}\n")
+            pysam.tabix_index(inp, seq_col=0, start_col=1, end_col=1, zerobased=not o["one_based"], force=True)
+            inp = inp + ".gz"
+            args = ["cload", "tabix", "--nproc", "1", "-c2", "3", "-p2", "4"] + ([] if o["one_based"] else ["--zero-based"])
         elif case["fn"] == "load_bg2":
             with open(inp, "w") as f:
+                if o.get("comment"):
+                    f.write("# a comment line\n")
                 for r, v in zip(recs, [v for vs in case["values"] for v in vs]):
                     if o.get("d8"):
                         f.write(f"{nm(r[0])}\t{r[1]}\t{r[2]}\t{nm(r[3])}\t{r[4]}\t{r[5]}\t77\t{v}\n")
@@ -294,6 +339,8 @@ def run_cli(tmpdir, k, blocks, names, case):
                 args.append("--one-based")
         else:
             with open(inp, "w") as f:
+                if o.get("comment"):
+                    f.write("# a comment line\n")
                 for r in recs:
                     if o.get("d8"):
                         f.write(f"{r[0]}\t{r[1]}\t{r[4]}\t55\t{r[4] + 100}\n")
@@ -302,10 +349,14 @@ def run_cli(tmpdir, k, blocks, names, case):
             args = ["load", "-f", "coo", "--chunksize", str(csz)] + (["--field", "foo=5", "--field", "count=3"] if o.get("d8") else [])
             if o["one_based"]:
                 args.append("--one-based")
-        if o["tril"] == "drop":
+        if case["fn"] == "cload_tabix":
+            pass
+        elif o["tril"] == "drop":
             args += ["--input-copy-status", "duplex"]
         elif o["tril"] is None:
             args.append("--no-symmetric-upper")
+        if o.get("float") and case["fn"].startswith("load"):
+            args.append("--count-as-float")
         args += [bins_arg, inp, out]
         res = CliRunner().invoke(cli, args)
         if res.exit_code != 0:
@@ -335,6 +386,8 @@ def table_worker(job):
                     out.append(run_sanitize(bins, names, case))
                 elif case["fn"] == "sanitize_pixels":
                     out.append(run_pixels(bins, case))
+                elif case["fn"] == "ctor":
+                    out.append(run_ctor(bins, case))
                 else:
                     out.append(run_cli(tmpdir, f"{k}_{j}", blocks, names, case))
             except TimeoutError:
@@ -362,6 +415,8 @@ def coq_pxrec(r):
 
 
 def model_expr(case):
+    if case["fn"] == "ctor":
+        return "true"
     o = case["opts"]
     ta = TRIL[o["tril"]]
     if case["fn"] == "sanitize_records":
@@ -372,6 +427,9 @@ def model_expr(case):
         chunks = C.lst([C.lst([coq_pxrec(r) for r in ch]) for ch in case["chunks"]])
         return (f"map (fun ch => match sanitize_pixels {C.b(o['one_based'])} {ta} ch with None => None "
                 f"| Some rs => Some (rs, aggregate_values rs) end) {chunks}")
+    if case["fn"] == "cload_tabix":     # no validation, no reflection: on in-range upper-triangle records it is cload pairs without a triangle action
+        chunks = C.lst([C.lst([coq_rec(r) for r in ch]) for ch in case["chunks"]])
+        return f"cload_pairs blocks {C.b(not o['one_based'])} TrilNone {chunks}"
     if case["fn"] == "cload_pairs":
         chunks = C.lst([C.lst([coq_rec(r) for r in ch]) for ch in case["chunks"]])
         return f"cload_pairs blocks {C.b(not o['one_based'])} {ta} {chunks}"
@@ -439,7 +497,10 @@ def gen_record_cases(rng, widths, n_sets, quick):
         recs = [good(ob) for _ in range(n)]
         stream = rng.random()
         label = "valid"
-        if stream < 0.30:      # one malformed record
+        if stream > 0.97:      # empty chunk / a chunk in which every record is dropped
+            recs = [] if rng.random() < 0.5 else [mk(-1, 3, rng.randrange(nc), 0, ob), mk(rng.randrange(nc), 1 + ob, -1, 5, ob)]
+            label = "empty" if not recs else "alldropped"
+        elif stream < 0.30:      # one malformed record
             c1, c2 = rng.randrange(nc), rng.randrange(nc)
             L1 = pos[c1][1]
             bad = rng.choice([-1, L1, L1 + 1, L1, -2])
@@ -473,6 +534,9 @@ def gen_record_cases(rng, widths, n_sets, quick):
         # positions as int64 / int32 / uint32 (unsigned only where every position is representable and validation is on)
         opts["chrom_repr"] = rng.choice(["object", "object", "cat_bin", "cat_alpha", "cat_alpha", "cat_rev", "cat_extra", "cat_subset"]) if opts["decode"] else "object"
         opts["pos_dtype"] = rng.choice(["int64", "int64", "int32", "uint32"])
+        # column layout: the preset, or every option spelled out with a custom anchor name / custom suffixes
+        if schema == "pairs":
+            opts["layout"] = rng.choice(["std", "std", "std", "coord", "suffix_ab" if ta != "reflect" else "coord"])
         if opts["pos_dtype"] == "uint32" and (not opts["validate"] or any(r[1] < 0 or r[4] < 0 for r in recs)):
             opts["pos_dtype"] = "int32"
         for cname, chunks in chunkings(rng, recs):
@@ -517,7 +581,8 @@ def gen_pixel_cases(rng, widths, n_sets):
         if ta == "raise" and rng.random() < 0.6:
             recs = [[min(r[0], r[1]), max(r[0], r[1])] + r[2:] for r in recs]
         opts = {"one_based": ob, "tril": ta, "sort": rng.random() < 0.7, "with_x": rng.random() < 0.7,
-                "pos_dtype": rng.choice(["int64", "int32", "uint32"]), "val_dtype": rng.choice(["int", "float"])}
+                "pos_dtype": rng.choice(["int64", "int32", "uint32"]), "val_dtype": rng.choice(["int", "float"]),
+                "fields": rng.choice([None, None, ["b1", "b2"]])}
         for cname, chunks in chunkings(rng, recs):
             cases.append({"fn": "sanitize_pixels", "widths": widths, "opts": dict(opts), "chunks": chunks, "label": "pixels:" + cname})
     return cases
@@ -535,11 +600,14 @@ def gen_cli_cases(rng, widths, n_runs):
     pos = [candidate_positions(blk) for blk in blocks]
     cases = []
     for _ in range(n_runs):
-        fn = rng.choice(["cload_pairs", "cload_pairs", "load_bg2", "load_coo"])
+        fn = rng.choice(["cload_pairs", "cload_pairs", "load_bg2", "load_coo", "cload_tabix"])
         ob = rng.randint(0, 1)
         ta = rng.choice(["reflect", "reflect", "drop", None])
         opts = {"one_based": ob, "tril": ta, "ideal_b": widths[0][0] if (is_ideal(widths) and rng.random() < 0.5) else None, "header": rng.random() < 0.5,
-                "d8": rng.random() < 0.3}
+                "d8": rng.random() < 0.3, "field": rng.random() < 0.3, "float": rng.random() < 0.3, "comment": rng.random() < 0.3}
+        if fn == "cload_tabix":
+            opts.update(tril=None, d8=False)
+            ta = None
         m = rng.choice([2, 4, 7, 10])
         label = "valid"
         if fn == "load_coo":
@@ -563,7 +631,7 @@ def gen_cli_cases(rng, widths, n_runs):
                 c1, c2 = rng.randrange(nc), rng.randrange(nc)
                 a1, a2 = rng.choice(pos[c1][0]), rng.choice(pos[c2][0])
                 recs.append([c1, a1 + ob, 0, c2, a2 + ob, 0])
-            r = rng.random()
+            r = rng.random() if fn != "cload_tabix" else 0.3 + 0.7 * rng.random()     # the tabix loader does not validate: in-range input only
             if r < 0.15:
                 c1 = rng.randrange(nc)
                 recs.append([c1, pos[c1][1] + ob, 0, c1, 0 + ob, 0])          # position == chromosome length (D2)
@@ -576,6 +644,10 @@ def gen_cli_cases(rng, widths, n_runs):
                 recs.append([-1, 5, 0, rng.randrange(nc), 0 + ob, 0])
                 label = "unknown"
             rng.shuffle(recs)
+            if fn == "cload_tabix":      # upper-triangle ("flipped") records sorted by chrom1, pos1, as the indexed format requires
+                recs = [r_ if (r_[0], r_[1]) <= (r_[3], r_[4]) or r_[3] < 0 else r_[3:] + r_[:3] for r_ in recs if r_[0] >= 0 or r_[3] >= 0]
+                recs = [r_ if r_[0] >= 0 else r_[3:] + r_[:3] for r_ in recs]
+                recs.sort(key=lambda r_: (r_[0], r_[1]))
             if fn == "load_bg2":
                 # bg2 rows carry start/end of the bin that contains the anchor; keep one row per pixel (per chunk dupcheck)
                 seen, rr = set(), []
@@ -594,7 +666,7 @@ def gen_cli_cases(rng, widths, n_runs):
                 for r_ in recs:
                     r_[2] = r_[1] + 1
                     r_[5] = r_[4] + 1
-        csz = rng.choice([len(recs), max(1, len(recs) // 2), 3, 1]) or 1
+        csz = (rng.choice([len(recs), max(1, len(recs) // 2), 3, 1]) or 1) if fn != "cload_tabix" else max(1, len(recs))
         chunks = [recs[i:i + csz] for i in range(0, len(recs), csz)]
         case = {"fn": fn, "widths": widths, "opts": opts, "chunks": chunks, "label": "cli:" + fn + ":" + label}
         if fn == "load_bg2":
@@ -643,6 +715,19 @@ CLI_CORPUS = [
      "chunks": [[[1, 0, 0, 0, 5], [2, 3, 0, 0, 7], [5, 5, 0, 0, 1]]], "label": "cli:load_coo:D8"},
     {"fn": "load_bg2", "widths": [[3, 3, 2], [4, 4], [5]], "opts": {"one_based": 0, "tril": "reflect", "ideal_b": None, "header": False, "d8": True},
      "chunks": [[[0, 0, 3, 1, 4, 8], [2, 0, 5, 0, 3, 6]]], "values": [[3, 4]], "label": "cli:load_bg2:D8"},
+    {"fn": "cload_pairs", "widths": [[5], [4, 4, 4], [6]], "opts": {"one_based": 1, "tril": "reflect", "ideal_b": None, "header": True},
+     "chunks": [[[-1, 3, 0, 1, 4, 0], [0, 2, 0, -1, 7, 0]]], "label": "cli:cload_pairs:alldropped"},
+    {"fn": "cload_pairs", "widths": [[5], [4, 4, 4], [6]], "opts": {"one_based": 1, "tril": "reflect", "ideal_b": None, "header": False},
+     "chunks": [], "label": "cli:cload_pairs:emptyfile"},
+    {"fn": "cload_pairs", "widths": [[5], [4, 4, 4], [6]], "opts": {"one_based": 1, "tril": "reflect", "ideal_b": None, "header": False, "field": True},
+     "chunks": [[[2, 6, 0, 0, 5, 0], [0, 1, 0, 0, 5, 0], [2, 1, 0, 2, 6, 0]], [[0, 5, 0, 2, 6, 0], [0, 3, 0, 0, 1, 0]]], "label": "cli:cload_pairs:field"},
+    {"fn": "cload_tabix", "widths": [[10, 10], [10, 12, 3], [7]], "opts": {"one_based": 1, "tril": None, "ideal_b": None, "header": False},
+     "chunks": [[[0, 3, 0, 0, 15, 0], [0, 4, 0, 1, 1, 0], [0, 12, 0, 1, 25, 0], [0, 12, 0, -1, 9, 0], [1, 5, 0, 1, 5, 0], [1, 11, 0, 2, 7, 0], [1, 23, 0, 2, 1, 0]]],
+     "label": "cli:cload_tabix:valid"},
+    {"fn": "cload_tabix", "widths": [[10, 10], [10, 10, 5], [7]], "opts": {"one_based": 0, "tril": None, "ideal_b": 10, "header": False},
+     "chunks": [[[0, 0, 0, 0, 19, 0], [0, 9, 0, 1, 0, 0], [0, 10, 0, 2, 6, 0], [1, 24, 0, 1, 24, 0], [1, 24, 0, 2, 0, 0]]], "label": "cli:cload_tabix:valid"},
+    {"fn": "load_coo", "widths": [[5], [4, 4, 4], [6]], "opts": {"one_based": 0, "tril": "reflect", "ideal_b": None, "header": False, "float": True, "comment": True},
+     "chunks": [[[4, 0, 0, 0, 5], [1, 1, 0, 0, 7]], [[0, 3, 0, 0, 1]]], "label": "cli:load_coo:float"},
     {"fn": "load_coo", "widths": [[3, 3, 2], [4, 4], [5]], "opts": {"one_based": 0, "tril": None, "ideal_b": None, "header": False},
      "chunks": [[[1, 0, 0, 0, 5], [0, 1, 0, 0, 7], [5, 5, 0, 0, 1]]], "label": "cli:load_coo:valid"},
 ]
@@ -666,6 +751,31 @@ D27_CASES = [
 
 # representation corpus: categorical chromosome columns whose category order differs from the bin-table order
 # (names_for gives chrB, chrA, chr10: alphabetical order is chr10, chrA, chrB), all contigs present, no unknown name
+# audit corpus: empty chunk, all-dropped chunk, a chromosome without records, single-bin chromosomes first and last,
+# the explicit-options layouts, custom pixel field names, constructor refusals
+AUDIT_CASES = [
+    {"fn": "sanitize_records", "widths": [[5], [4, 4, 4], [6]],
+     "opts": {"schema": "pairs", "one_based": 0, "tril": "reflect", "sort": True, "validate": True, "decode": True, "with_x": True, "layout": lay_},
+     "chunks": ch_, "label": "audit:" + lab_}
+    for lay_, lab_, ch_ in [
+        ("std", "empty", [[]]),
+        ("coord", "empty", [[]]),
+        ("std", "alldropped", [[[-1, 3, 1, 0, 2, 2], [2, 1, 3, -1, -7, 4]]]),
+        ("std", "no-records-on-middle-chromosome", [[[2, 5, 1, 0, 4, 2], [0, 0, 3, 0, 4, 4], [2, 0, 5, 2, 5, 6]]]),
+        ("coord", "single-bin-first-last", [[[2, 5, 1, 0, 4, 2], [1, 11, 3, 0, 0, 4], [2, 0, 5, 1, 4, 6]]]),
+    ]
+] + [
+    {"fn": "sanitize_records", "widths": [[5], [4, 4, 4], [6]],
+     "opts": {"schema": "pairs", "one_based": 1, "tril": ta_, "sort": False, "validate": True, "decode": True, "with_x": True, "layout": "suffix_ab"},
+     "chunks": [[[2, 6, 1, 0, 5, 2], [1, 12, 3, 0, 1, 4], [0, 1, 5, 1, 5, 6]]], "label": "audit:suffix_ab"}
+    for ta_ in (None, "drop")
+] + [
+    {"fn": "sanitize_pixels", "widths": [[5], [4, 4, 4], [6]],
+     "opts": {"one_based": 1, "tril": "reflect", "sort": True, "with_x": True, "fields": ["b1", "b2"], "pos_dtype": "int32", "val_dtype": "float"},
+     "chunks": [[[5, 1, 10, 11, 2], [1, 1, 12, 13, 3], [2, 5, 14, 15, 4]], []], "label": "audit:fields"},
+    {"fn": "ctor", "widths": [[5], [4, 4, 4], [6]], "kwargs": {"schema": "no-such-schema"}, "expect": "ValueError"},
+]
+
 REPR_CASES = [
     {"fn": "sanitize_records", "widths": [[10, 10], [10, 10, 5], [7]],
      "opts": {"schema": "pairs", "one_based": 0, "tril": ta_, "sort": False, "validate": True, "decode": True, "with_x": True,
@@ -677,7 +787,21 @@ REPR_CASES = [
 
 
 # ------------------------------------------------------------------ judging one case
+def agg_x_of(rows):
+    acc = {}
+    for r in rows:
+        c, s_ = acc.get((r[0], r[1]), (0, 0))
+        acc[(r[0], r[1])] = (c + 1, s_ + r[4])
+    return [[a, b_, c, s_] for (a, b_), (c, s_) in sorted(acc.items())]
+
+
 def judge(ctx, case, impl, model):
+    if case["fn"] == "ctor":
+        rec = {k: case[k] for k in ("fn", "widths", "kwargs", "expect")}
+        ctx.case(rec, nontrivial=False, kind="ctor")
+        if impl != case["expect"]:
+            ctx.fail(rec, {"expected": case["expect"], "got": impl}, None)
+        return
     blocks = blocks_from_widths(case["widths"])
     o = case["opts"]
     fn = case["fn"]
@@ -705,7 +829,8 @@ def judge(ctx, case, impl, model):
                     rows = [r[:4] + [0] + r[5:7] + [0] for r in rows]
                 if o["sort"]:
                     rows = sorted(rows, key=lambda r: (r[0], r[1]))     # stable, like DataFrame.sort_values
-                exp = {"rows": rows, "agg": [list(p) for p in magg]}
+                exp = {"rows": rows, "agg": [list(p) for p in magg], "agg_unsorted": [list(p) for p in magg],
+                       "agg_x": agg_x_of(rows) if o["with_x"] else []}
                 mc = unopt(mcollect)
                 if mc is None or [flat_out(x) for x in mc] != [flat_out(x) for x in mrows]:
                     ctx.disagree("model: phased sanitize_records vs record-by-record collect", rec, "phased", "collect")
@@ -724,7 +849,8 @@ def judge(ctx, case, impl, model):
                 retained += len(want)
                 okrows = sorted(im["rows"]) == sorted(want)
                 cnt = Counter((r[0], r[1]) for r in want)
-                okagg = im["agg"] == [[a, b_, n] for (a, b_), n in sorted(cnt.items())] and sum(x[2] for x in im["agg"]) == len(want)
+                okagg = im["agg"] == [[a, b_, n] for (a, b_), n in sorted(cnt.items())] and sum(x[2] for x in im["agg"]) == len(want) \
+                    and im["agg_unsorted"] == im["agg"] and im["agg_x"] == (agg_x_of(want) if o["with_x"] else [])
                 oksort = (not o["sort"]) or all((im["rows"][i][0], im["rows"][i][1]) <= (im["rows"][i + 1][0], im["rows"][i + 1][1]) for i in range(len(im["rows"]) - 1))
                 if not (okrows and okagg and oksort):
                     ctx.fail(dict(rec, chunk=ch), {"expected_rows": sorted(want)[:8], "got_rows": sorted(im["rows"])[:8], "got_agg": im["agg"][:8]}, sig)
@@ -760,6 +886,10 @@ def judge(ctx, case, impl, model):
     # ---- CLI runs
     mo = unopt(model)
     exp = "exit:1" if mo is None else [list(p) for p in mo]
+    impl_vals = None
+    if isinstance(impl, list) and impl and len(impl[0]) == 4:       # --field val=6: an extra summed value column
+        impl_vals = [[r[0], r[1], r[3]] for r in impl]
+        impl = [r[:3] for r in impl]
     ctx.compare(fn, rec, impl, exp)
     allrecs = [r for ch in case["chunks"] for r in ch]
     if fn == "load_coo":
@@ -790,6 +920,12 @@ def judge(ctx, case, impl, model):
             ctx.fail(rec, {"expected": "the command must fail (a record lies outside its chromosome)", "got": impl[:8]}, sig)
     elif isinstance(impl, str) or impl != total:
         ctx.fail(rec, {"expected": total[:10], "got": impl if isinstance(impl, str) else impl[:10]}, sig)
+    elif o.get("field") and fn == "cload_pairs" and total:
+        vs = Counter()
+        for r in want:
+            vs[(r[0], r[1])] += r[4] % 5 + 1
+        if impl_vals != [[a, b_, v] for (a, b_), v in sorted(vs.items())]:
+            ctx.fail(rec, {"expected_val_sums": sorted(vs.items())[:10], "got": impl_vals}, sig)
     ctx.case(rec, nontrivial=want != "error" and nb >= 2, kind=case["label"])
 
 
@@ -809,7 +945,7 @@ def run(ctx):
         cases += gen_pixel_cases(rng, widths, 8 if thorough else 3)
         cases += gen_cli_cases(rng, widths, (8 if thorough else 4) if label == "corpus" else (2 if thorough else 1))
         per_table.setdefault(canon_w(widths), [widths, []])[1].extend(cases)
-    for case in D2_CASES + D27_CASES + REPR_CASES + CLI_CORPUS:
+    for case in D2_CASES + D27_CASES + REPR_CASES + AUDIT_CASES + CLI_CORPUS:
         per_table.setdefault(canon_w(case["widths"]), [case["widths"], []])[1].append(case)
     plan = list(per_table.values())
 
@@ -865,7 +1001,6 @@ def replay(ctx, case):
     sub.disagree = lambda *a, **k: None
     sub.fail = lambda c, d, s=None: fails.append((c, d, s))
     # the model side is not needed to re-judge the property: give judge a model value that is never compared
-    o = case["opts"]
     if case["fn"] in ("sanitize_records", "sanitize_pixels"):
         model = [None] * len(case["chunks"])
     else:
